@@ -19,7 +19,7 @@ CLAIMS = {
             "impl (forwarders incl. the type-erased bridge, Option, Empty, And, Or, Wrap, FromFilter, FirstDefined, "
             "Runtime, macro entry points) as exactly-once / truth-table / short-circuit rules; leaf emitters bypass "
             "filter, clock and ctxt. The conclusion for all combinator trees follows by structural induction (paper "
-            "step). Does not decide what user-supplied leaf filters/emitters do. Round 2: the proc-macro side of the emit hooks is read off emit_macros' quote! templates (argument count and like-named variable/parameter agreement at the macro/runtime boundary). Thorough tier repeats the rules on the no_std and alloc-only builds. Round 4: a macro call without `when` passes the empty filter (read off the quote stream).",
+            "step). Does not decide what user-supplied leaf filters/emitters do. Round 2: the proc-macro side of the emit hooks is read off emit_macros' quote! templates (argument count and like-named variable/parameter agreement at the macro/runtime boundary). Thorough tier repeats the rules on the no_std and alloc-only builds. Round 4: a macro call without `when` passes the empty filter (read off the quote stream). Round 5: runtime::shared()/internal() are exactly <SLOT>.get(), a fresh read of the slot on every call (no memoisation).",
             "custom MIR dataflow/path rules (rustc_private fact extractor + provenance, path counting, truth tables)",
             "3/C01"),
     "C02": ("Decides on built MIR for every impl of Props in the workspace (24 for_each bodies, enumerated from the "
@@ -40,7 +40,7 @@ CLAIMS = {
             "only on the filter's accept edge) and takes state/data; Timer reads the clock once at start and once at "
             "extent, range(start..now); the default completion's panic arm; level plumbing of the macro completion "
             "hooks; argument agreement (no swapped same-typed arguments) incl. the proc-macro crate. Thorough adds "
-            "the macro call-site corpus. Not decided: values of clock readings (backwards clocks). Round 2: ToExtent for Timer is Timer::extent(); the tokens the span macro passes as panic_lvl derive from the panic_lvl argument only (and lvl from the default level only), read off the quote! templates; generated hook calls agree with the hooks' parameter names; is_panicking() is std::thread::panicking() (constant false without std, thorough tier).",
+            "the macro call-site corpus. Not decided: values of clock readings (backwards clocks). Round 2: ToExtent for Timer is Timer::extent(); the tokens the span macro passes as panic_lvl derive from the panic_lvl argument only (and lvl from the default level only), read off the quote! templates; generated hook calls agree with the hooks' parameter names; is_panicking() is std::thread::panicking() (constant false without std, thorough tier). Round 5: in the macro completion hook with_lvl and with_panic_lvl are each control-dependent on their own option only and the completion that runs has been through both.",
             "custom MIR typestate/dataflow rules (guarded-call, field provenance of aggregate constructions, "
             "path-sensitive write-back) + argument-agreement lint",
             "3/C05"),
@@ -79,7 +79,7 @@ CLAIMS = {
             "exactly those paths), replaced only by the receiver, each flag has one writer; a retry re-submits the "
             "processor's remainder with the same watchers; Sender/Receiver are generic over T: Channel only, Receiver is "
             "not Clone and is consumed by exec, nothing is spawned; no unaccounted panic-capable site in channel code "
-            "outside catch_unwind. The linearisation over all interleavings is a paper step from these premises. Round 4: Retry::next is exactly current+1 (or saturating) compared <= max.",
+            "outside catch_unwind. The linearisation over all interleavings is a paper step from these premises. Round 4: Retry::next is exactly current+1 (or saturating) compared <= max. Round 5: the send entry points are part of the claim: in Sender::send no path from the capacity test returns without the push except over the !is_open edge; nothing reachable from the blocking/fallible/async variants truncates.",
             "custom MIR rules: lock/critical-section counting, guard provenance of field reads, who-may-write table, "
             "predicate (bound) inspection, panic-site inventory",
             "3/C06"),
@@ -100,7 +100,7 @@ CLAIMS = {
             "sender or receiver closes the channel under the lock; exec returns only on the empty arm with the channel "
             "closed, decided inside the one critical section; tokio blocking entry points never call block_on and call "
             "block_in_place only under a runtime-flavour check (fixed defect); send_or_wait waits the remaining time; "
-            "panic-site inventory of channel code outside catch_unwind. Not decided: bounded time, OS scheduling. Round 2: the wait callback handed to send_or_wait captures nothing derived from the caller's total timeout and waits for its own (remaining-time) parameter. Thorough tier repeats the channel rules on the build without tokio. Round 4: Duration/SystemTime/Instant operators outside a reasoned table are reported (they panic on overflow).",
+            "panic-site inventory of channel code outside catch_unwind. Not decided: bounded time, OS scheduling. Round 2: the wait callback handed to send_or_wait captures nothing derived from the caller's total timeout and waits for its own (remaining-time) parameter. Thorough tier repeats the channel rules on the build without tokio. Round 4: Duration/SystemTime/Instant operators outside a reasoned table are reported (they panic on overflow). Round 5: every Result-returning call in the channel crate is inspected (reasoned allow table); the tokio worker blocks on a Runtime built in place with timers on, never on a borrowed Handle; each OTLP signal is flushed with the time remaining after the previous one; the retried batch keeps the current batch's watchers (root provenance).",
             "custom MIR rules: containment (who-may-call), loop back-edge control dependence, guard liveness, effect names",
             "3/C08"),
     "C09": ("Decides on built MIR: send tests len >= max_capacity under the lock, clears on the full edge, counts the "
@@ -110,7 +110,7 @@ CLAIMS = {
             "returns the item on expiry; the file and OTLP emitters' emit() reach (call graph over workspace bodies) no "
             "filesystem/network/sleep/condvar/block_on/blocking-send effect and end in Sender::send; for every impl "
             "Channel, clear() resets each field push() updates or len() reads, and the OTLP channel's len is its event "
-            "count. Not decided: effects inside dependencies, wall-clock bounds. Round 2: same wait-closure rule as C08.",
+            "count. Not decided: effects inside dependencies, wall-clock bounds. Round 2: same wait-closure rule as C08. Round 5: nothing reachable from the blocking, fallible or async send variants calls the truncating Sender::send or Channel::clear; send always enqueues once past the capacity test.",
             "custom MIR rules: comparison-operator and edge inspection, call-graph effect reachability, field read/write sets",
             "3/C09"),
     "C10": ("Decides the worker's structure on built MIR (not what the OS does): every Ok return is dominated by "
@@ -121,7 +121,7 @@ CLAIMS = {
             "bare Write::write; reuse opens in recovery mode, create clean; open_new = create_new+append, open_existing "
             "append-only, parent directory synced before a created file is used; emit() appends a missing separator; "
             "advance() steps by one and subtracts the taken length; events the cursor moved past are synced before any "
-            "return (one known finding). Not decided: byte identity, the in-memory fault model. Round 2: the channel's retry budget is reset per batch and the retry loop re-submits the returned remainder (shared with C08/C06).",
+            "return (one known finding). Not decided: byte identity, the in-memory fault model. Round 2: the channel's retry budget is reset per batch and the retry loop re-submits the returned remainder (shared with C08/C06). Round 5: every Result-returning call in emit_file (143 sites) is inspected outside a 3-row reasoned table (error discipline).",
             "custom MIR rules: dominance/must-pass-through with ?-success edges, field-write ordering, constant options",
             "3/C10"),
     "C12": ("Decides on built MIR (async bodies pre-lowering): in OtlpTransport::send each iteration peeks one request, "
@@ -131,7 +131,7 @@ CLAIMS = {
             "counts it once; one Receiver::exec with its own transport per signal; the cached connection is taken before "
             "and handed back only after a successful request, inside tokio::time::timeout; the accepted status sets "
             "computed from the comparison constants are exactly HTTP 200..=299 and grpc-status 0; a transport error is "
-            "retryable. Not decided: network/collector behaviour, back-off timing. Round 2: every configured signal is flushed and a failed one fails the flush; the channel's retry budget resets per batch.",
+            "retryable. Not decided: network/collector behaviour, back-off timing. Round 2: every configured signal is flushed and a failed one fails the flush; the channel's retry budget resets per batch. Round 5: every Result-returning call in the OTLP client (77 sites) is inspected outside a 1-row reasoned table; the when_flushed decision table of C07 runs here too.",
             "custom MIR rules: await-source resolution, per-iteration removal counting, value-set evaluation of guards",
             "3/C12"),
     "C14": ("Decides on built MIR: on every path through OtlpInner::emit exactly one of {Sender::send on the metrics / "
@@ -143,7 +143,7 @@ CLAIMS = {
             "?-checked and whose stream impl makes text/bool/null errors; the logs encoder has no declining path; "
             "is_span_filter/is_metric_filter build KindFilter(Span/Metric), KindFilter::matches compares "
             "pull::<Kind>(\"evt_kind\") with its own kind; FromValue for Kind = downcast then Value::parse; the kind's "
-            "text constants agree between Display and FromStr. Not decided: which sval calls a runtime value produces. Round 2: the metrics encoder declines only for a non-metric kind or a missing/unusable metric_value, never because another property (metric_agg) is absent. Round 4: the traces encoder declines only on the kind filter or a missing/point extent; the OTLP send loop rules of C12 run here too.",
+            "text constants agree between Display and FromStr. Not decided: which sval calls a runtime value produces. Round 2: the metrics encoder declines only for a non-metric kind or a missing/unusable metric_value, never because another property (metric_agg) is absent. Round 4: the traces encoder declines only on the kind filter or a missing/point extent; the OTLP send loop rules of C12 run here too. Round 5: FromValue for Kind cannot answer before the typed-value attempt and the lenient parser (no exact-text shortcut).",
             "custom MIR rules: path enumeration with per-path counting and provenance, guard edges, error-discipline "
             "(ignored Result) check, sibling-impl agreement",
             "3/C14"),
@@ -156,7 +156,7 @@ CLAIMS = {
             "sort order of the listing, the end current_file_name() reads and the end retention removes are consistent; "
             "file_name() formats prefix, period, id, ext in that order and read_file_name_ts() reads part 1 of split('.'); "
             "new files are named from the period of this batch's clock reading; only entries matching prefix and extension "
-            "enter the listing. Every numeric component of a name is written zero-padded to a fixed width, coarse to fine (format templates decoded from the constant the compiler emits). Not claimed: prefix-extending sibling sets, calendar arithmetic. Round 2: the set directory returned for a template is tested for emptiness and replaced (fixed defect: bare file names); retention is a loop that deletes while len >= bound, bound = max_files.saturating_sub(1); the name's counter is the whole time elapsed since the start of the current day/hour/minute (exact field sets per arm) of the batch's one clock reading, which also gives the period; an opened file's period is parsed from the name of the very path that was opened. Round 4: the Channel impl rules (clear() zeroes every counter it assigns) run here too.",
+            "enter the listing. Every numeric component of a name is written zero-padded to a fixed width, coarse to fine (format templates decoded from the constant the compiler emits). Not claimed: prefix-extending sibling sets, calendar arithmetic. Round 2: the set directory returned for a template is tested for emptiness and replaced (fixed defect: bare file names); retention is a loop that deletes while len >= bound, bound = max_files.saturating_sub(1); the name's counter is the whole time elapsed since the start of the current day/hour/minute (exact field sets per arm) of the batch's one clock reading, which also gives the period; an opened file's period is parsed from the name of the very path that was opened. Round 4: the Channel impl rules (clear() zeroes every counter it assigns) run here too. Round 5: a directory entry joins the set only through a decision in which the `.` separator takes part next to prefix/extension, and in which both the configured prefix (prefix-side test) and extension (suffix-side test) take part - written inline, in closures or in a predicate function, directly or through formatted copies (found D21, fixed); the rewind rule of C10 runs here too.",
             "custom MIR rules: truth table of a closure predicate, feasible-path must-pass-through, who-may-call, "
             "provenance of deleted paths, sibling agreement (sort/first/pop), format-argument order",
             "3/C11"),
@@ -186,7 +186,7 @@ CLAIMS = {
             "outside seg(::seg)* (fixed defect); (R4) traceparent offsets (55; 2,35,52; 0..2,3..35,36..52,53..55) and RFC 3339 "
             "separator offsets with ?-checked fields; FromValue casts are downcast-then-text-parse. NOT decided (and one "
             "seeded change in to_parts is missed for that reason): format/parse identity of timestamps, calendar "
-            "conversion, lexicographic order, acceptance of every well-formed level text. Round 2: the path automaton has '_' as its own class and its lower bound is Rust identifiers (fixed defect: a::_1 rejected); hex ids are never decimal-parsed from text. Round 4: no Result produced inside the parser regions is discarded (text buffering included); a Path is built from runtime text only on the accepting edge of is_valid_path (who-may-call rule for the *_raw constructors); a leap-year computation without century terms is reachable only for years below 2100 (guard constant).",
+            "conversion, lexicographic order, acceptance of every well-formed level text. Round 2: the path automaton has '_' as its own class and its lower bound is Rust identifiers (fixed defect: a::_1 rejected); hex ids are never decimal-parsed from text. Round 4: no Result produced inside the parser regions is discarded (text buffering included); a Path is built from runtime text only on the accepting edge of is_valid_path (who-may-call rule for the *_raw constructors); a leap-year computation without century terms is reachable only for years below 2100 (guard constant). Round 5: no from_value of a well-known type returns before the typed-value attempt; every accepting path of the traceparent parser has examined all four field slices; the leap day is counted from March on (month base and constant agree).",
             "panic-site inventory with interval-lite abstract interpretation on MIR, constant-table evaluation by the "
             "compiler, finite-automaton extraction by abstract interpretation, layout-constant agreement",
             "3/C15"),
@@ -200,7 +200,7 @@ CLAIMS = {
             "to_owned rebuild Text as Text and Hole as Hole with every field taken from the same field of the source (label, "
             "formatter); TemplateKind::parts covers every variant; Template::to_owned goes through Part::to_owned. Not decided: "
             "that eq is an equivalence insensitive to fragment splitting (a value-level defect for an empty fragment next to a "
-            "hole is known and out of reach). Round 2: each cursor of eq indexes only the sequence whose length bounds it (contradiction rule); #[emit::fmt] flags reach the generated format string verbatim; generated __private_format/emit calls agree with the hooks' parameters. Round 4: every return of Render::write goes through the loop over the parts and the writer is handed to nothing but Part::write; the macro's template visitor copies each text fragment unchanged into the literal and the generated Part::text.",
+            "hole is known and out of reach). Round 2: each cursor of eq indexes only the sequence whose length bounds it (contradiction rule); #[emit::fmt] flags reach the generated format string verbatim; generated __private_format/emit calls agree with the hooks' parameters. Round 4: every return of Render::write goes through the loop over the parts and the writer is handed to nothing but Part::write; the macro's template visitor copies each text fragment unchanged into the literal and the generated Part::text. Round 5: #[emit::fmt] stores the flag string exactly as written in both argument forms.",
             "custom MIR rules: panic-site inventory with interval-lite discharges, guard-edge conditions, aggregate field "
             "provenance, forwarding",
             "3/C16"),
@@ -256,7 +256,7 @@ CLAIMS = {
             "reaches no visitor call); Value and OwnedValue forward sval/serde/Debug/Display to the wrapped bag; buffering "
             "into the thread-local ambient context only downcasts (TraceId/SpanId) or to_shared()s and never calls a "
             "parse/format/cast function; owned/shared copies are the bag's. NOT decided (the larger part of the property): "
-            "what consumers observe through value-bag / sval / serde bridging. Round 2: the attribute -> hook table of the proc-macro crate selects, for each #[emit::as_*], the inspecting and anonymous capture hook of its own mode (read off quote! templates); lookup in macro-built props skips None entries. Round 4: every field of a macro argument struct is the argument's value, never a presence test; impl ToValue for dyn Error/Debug/Display uses the bag constructor of its own trait.",
+            "what consumers observe through value-bag / sval / serde bridging. Round 2: the attribute -> hook table of the proc-macro crate selects, for each #[emit::as_*], the inspecting and anonymous capture hook of its own mode (read off quote! templates); lookup in macro-built props skips None entries. Round 4: every field of a macro argument struct is the argument's value, never a presence test; impl ToValue for dyn Error/Debug/Display uses the bag constructor of its own trait. Round 5: stacked attributes compose: the evaluator call in eval_hooks' attribute loop takes a loop-carried accumulator (its own previous output), which is what is returned.",
             "custom MIR rules: resolved-callee mode tables (writer/reader agreement across three layers), loop-edge "
             "reachability, forbidden-call whitelist",
             "3/C19"),
